@@ -82,7 +82,7 @@ func c09Case(c *Ctx, id, stack string, roots []string, items []string) {
 			// names are reported relative to D (only for handles obtained through the wrapper)
 		}
 		got := out
-		if len(f) > 2 && f[2] == "HName" {
+		if len(f) > 2 && f[2] == "HName" && strings.HasPrefix(got, "name:") && strings.HasPrefix(want, "name:") {
 			gn, wn := string(unhx(strings.TrimPrefix(got, "name:"))), string(unhx(strings.TrimPrefix(want, "name:")))
 			if viaTop(items, f[3]) {
 				if filepath.Join(joined, gn) != filepath.Clean(wn) {
@@ -163,6 +163,8 @@ func runC09(c *Ctx) {
 		for _, cs := range c.From {
 			t := strings.Fields(cs[0])
 			switch t[0] {
+			case "realpath":
+				realpathCase(c, t[1], unhx(t[2]), unhx(t[3]))
 			case "fullpath":
 				fullpathCase(c, t[1], string(unhx(t[2])), string(unhx(t[3])), string(unhx(t[4])))
 			case "case":
@@ -187,6 +189,20 @@ func runC09(c *Ctx) {
 		c09Case(c, fmt.Sprintf("t%d", i), stack, roots, items)
 		if i < 2 {
 			c.Sample("case " + stack + ": " + strings.Join(items, " ; "))
+		}
+	}
+	// RealPath of in-root names = Join(root, name), also for names that repeat the root's own
+	// segments (root /a, name /a/b -> /a/a/b); escaping names are C08's business
+	rk := 0
+	for _, rt := range []string{"/a", "/a/b", "/ab", "/"} {
+		for _, nm := range allStrings([]byte{'a', 'b', '/'}, 5) {
+			id := fmt.Sprintf("rq%d", rk)
+			rk++
+			realpathCase(c, id, []byte(rt), nm)
+			bp := afero.NewBasePathFs(afero.NewMemMapFs(), rt).(*afero.BasePathFs)
+			if got, err := bp.RealPath(string(nm)); err != nil || got != filepath.Join(rt, string(nm)) {
+				c.Oracle("FAIL %s realpath-not-join root=%q name=%q: got %q, %v; want %q", id, rt, nm, got, err, filepath.Join(rt, string(nm)))
+			}
 		}
 	}
 	k := 0
